@@ -15,6 +15,7 @@ import (
 	"go/token"
 	"go/types"
 	"math/big"
+	"strings"
 
 	"golang.org/x/tools/go/ssa"
 )
@@ -317,7 +318,10 @@ func ruleTB58(c *Ctx) {
 	}
 	key := "a25.set58/digit"
 	if search == nil {
-		c.Undecided("T-b58", key, fn.Pos(), "the digit of a character is not read by an index search in the alphabet (bytes.IndexByte / strings.IndexByte): the mapping cannot be evaluated")
+		if done := b58DigitFromTable(c, fn, v, key); done {
+			return
+		}
+		c.Undecided("T-b58", key, fn.Pos(), "the digit of a character is not read by an index search in the alphabet (bytes.IndexByte / strings.IndexByte) nor from a table the rule can read: the mapping cannot be evaluated")
 		return
 	}
 	// the character searched for is an element of the argument
@@ -459,4 +463,242 @@ func globalStringBytes(p *Prog, g *ssa.Global) (string, bool) {
 		}
 	}
 	return val, true
+}
+
+// b58DigitFromTable: the digit is looked up in a package-level array that an initialiser function fills in the two
+// loops "every entry = K" and "entry[alphabet[j]] = j" (either may be missing). The table is read off those loops -
+// entry b is the position of b in the alphabet, else K, else the zero value - and held against the rule: for all
+// 256 byte values the digit of an alphabet character is its position and any other byte's entry is negative, the
+// entry consulted is that of the character itself, and a negative digit is refused. Returns false when the lookup
+// is not of this form (the caller reports undecided).
+func b58DigitFromTable(c *Ctx, fn *ssa.Function, v *fnView, key string) bool {
+	// the lookup: int(T[idx]) with T a global array
+	var load *ssa.UnOp
+	var tab *ssa.Global
+	var idx ssa.Value
+	for _, ins := range v.Instrs {
+		ld, ok := ins.(*ssa.UnOp)
+		if !ok || ld.Op != token.MUL {
+			continue
+		}
+		ia, ok := ld.X.(*ssa.IndexAddr)
+		if !ok {
+			continue
+		}
+		g, ok := ia.X.(*ssa.Global)
+		if !ok {
+			continue
+		}
+		if _, isArr := derefType(g.Type()).Underlying().(*types.Array); !isArr {
+			continue
+		}
+		load, tab, idx = ld, g, ia.Index
+	}
+	if load == nil {
+		return false
+	}
+	arr := derefType(tab.Type()).Underlying().(*types.Array)
+	// the initialiser: package init stores the result of a call of a function literal into the global
+	var initFn *ssa.Function
+	if pkgInit := tab.Pkg.Func("init"); pkgInit != nil {
+		for _, b := range pkgInit.Blocks {
+			for _, ins := range b.Instrs {
+				if st, ok := ins.(*ssa.Store); ok && st.Addr == ssa.Value(tab) {
+					if call, ok := st.Val.(*ssa.Call); ok {
+						if f, ok := call.Call.Value.(*ssa.Function); ok {
+							initFn = f
+						} else if mc, ok := call.Call.Value.(*ssa.MakeClosure); ok {
+							initFn, _ = mc.Fn.(*ssa.Function)
+						}
+					}
+				}
+			}
+		}
+	}
+	if initFn == nil || !globalOnlyIndexed(c.P, tab) {
+		return false
+	}
+	// read the loops of the initialiser
+	fill, hasFill := int64(0), false
+	alphabet, hasAlpha := "", false
+	var local *ssa.Alloc
+	for _, b := range initFn.Blocks {
+		for _, ins := range b.Instrs {
+			st, ok := ins.(*ssa.Store)
+			if !ok {
+				continue
+			}
+			ia, ok := st.Addr.(*ssa.IndexAddr)
+			if !ok {
+				if al, isAl := st.Addr.(*ssa.Alloc); isAl && (local == nil || al == local) {
+					continue // *t0 = *t0 before the return
+				}
+				return false
+			}
+			al, ok := ia.X.(*ssa.Alloc)
+			if !ok {
+				return false
+			}
+			local = al
+			var hdr *ssa.BasicBlock
+			for _, h := range dominatingLoopHeaders(b) {
+				hdr = h
+			}
+			if hdr == nil || !unconditionalInLoop(hdr, b) {
+				return false
+			}
+			if k, isK := constInt(st.Val); isK {
+				// every entry = K: the index is the counter of a loop over the whole array
+				iff, _ := hdr.Instrs[len(hdr.Instrs)-1].(*ssa.If)
+				bo, _ := iff.Cond.(*ssa.BinOp)
+				if bo == nil || bo.Op != token.LSS || bo.X != ia.Index || !countsFromZero(ia.Index, hdr) {
+					return false
+				}
+				if n, isN := constInt(bo.Y); !isN || n.Int64() != arr.Len() {
+					return false
+				}
+				fill, hasFill = k.Int64(), true
+				if hasAlpha {
+					return false // the fill would wipe the positions written before it
+				}
+				continue
+			}
+			// entry[alphabet[j]] = j
+			cv, isCv := st.Val.(*ssa.Convert)
+			eld, isLd := ia.Index.(*ssa.UnOp)
+			if !isCv || !isLd || eld.Op != token.MUL {
+				return false
+			}
+			eia, ok := eld.X.(*ssa.IndexAddr)
+			if !ok || eia.Index != cv.X || !countsFromZero(cv.X, hdr) {
+				return false
+			}
+			src, ok := eia.X.(*ssa.UnOp)
+			if !ok {
+				return false
+			}
+			g, ok := src.X.(*ssa.Global)
+			if !ok {
+				return false
+			}
+			a, ok := globalStringBytes(c.P, g)
+			if !ok {
+				return false
+			}
+			alphabet, hasAlpha = a, true
+		}
+	}
+	if !hasAlpha {
+		return false
+	}
+	// the index consulted is the character itself, and a negative digit is refused
+	isChar := false
+	if ld, ok := idx.(*ssa.UnOp); ok && ld.Op == token.MUL {
+		if ia, ok := ld.X.(*ssa.IndexAddr); ok && len(fn.Params) > 1 && ia.X == ssa.Value(fn.Params[1]) {
+			isChar = true
+		}
+	}
+	refused := false
+	for _, b := range v.Blocks {
+		iff, ok := b.Instrs[len(b.Instrs)-1].(*ssa.If)
+		if !ok {
+			continue
+		}
+		bo, ok := iff.Cond.(*ssa.BinOp)
+		if !ok {
+			continue
+		}
+		x := bo.X
+		for {
+			cv, isCv := x.(*ssa.Convert)
+			if !isCv {
+				break
+			}
+			x = cv.X
+		}
+		k, isK := constInt(bo.Y)
+		if x != ssa.Value(load) || !isK {
+			continue
+		}
+		if bo.Op == token.LSS && k.Sign() == 0 {
+			if r, isRet := b.Succs[0].Instrs[len(b.Succs[0].Instrs)-1].(*ssa.Return); isRet && returnKinds(r.Results[len(r.Results)-1]) == 2 {
+				refused = true
+			}
+		}
+	}
+	// the table, entry by entry
+	bad := ""
+	if alphabet != base58Alphabet {
+		bad = fmt.Sprintf("the table is filled from the alphabet %q, Base58 is %q", alphabet, base58Alphabet)
+	}
+	if bad == "" && int64(256) > arr.Len() && isChar {
+		bad = fmt.Sprintf("the table has %d entries but is indexed by a byte", arr.Len())
+	}
+	if bad == "" {
+		for bv := 0; bv < 256 && bv < int(arr.Len()); bv++ {
+			pos := strings.IndexByte(alphabet, byte(bv))
+			entry := fill
+			if !hasFill {
+				entry = 0
+			}
+			if pos >= 0 {
+				entry = int64(pos)
+			}
+			switch {
+			case pos >= 0 && entry != int64(pos):
+				bad = fmt.Sprintf("the character %q has digit %d in the table, its position in the alphabet is %d", byte(bv), entry, pos)
+			case pos < 0 && entry >= 0:
+				bad = fmt.Sprintf("the byte 0x%02x is not in the alphabet but its table entry is %d (not negative): it is read as the digit %d instead of being refused", bv, entry, entry)
+			}
+			if bad != "" {
+				break
+			}
+		}
+	}
+	switch {
+	case bad != "":
+		c.Fail("T-b58", key, load.Pos(), "the validator's Base58 digit table: "+bad)
+	case !isChar:
+		c.Fail("T-b58", key, load.Pos(), "the table entry consulted is not that of the character itself (the index is transformed first): bytes outside the alphabet can be read as digits")
+	case !refused:
+		c.Fail("T-b58", key, load.Pos(), "a negative table entry (a character that is not in the alphabet) is not refused")
+	default:
+		c.OK("T-b58", key, load.Pos(), "digit = table entry = position in the 58-character alphabet, every other byte's entry negative and refused (256 entries read off the initialiser's loops)")
+	}
+	return true
+}
+
+// globalOnlyIndexed: the package-level array is written by its package initialiser only and otherwise only indexed.
+func globalOnlyIndexed(p *Prog, g *ssa.Global) bool {
+	for _, spk := range p.ScopePkgs() {
+		for _, fn := range pkgFunctions(p, spk.PkgPath) {
+			for _, b := range fn.Blocks {
+				for _, ins := range b.Instrs {
+					for _, op := range ins.Operands(nil) {
+						if *op != ssa.Value(g) {
+							continue
+						}
+						switch x := ins.(type) {
+						case *ssa.Store:
+							if fn.Name() != "init" || x.Addr != ssa.Value(g) {
+								return false
+							}
+						case *ssa.IndexAddr:
+							if x.Referrers() != nil {
+								for _, r := range *x.Referrers() {
+									if _, isSt := r.(*ssa.Store); isSt {
+										return false
+									}
+								}
+							}
+						case *ssa.UnOp, *ssa.DebugRef:
+						default:
+							return false
+						}
+					}
+				}
+			}
+		}
+	}
+	return true
 }
